@@ -479,7 +479,26 @@ def gen_structured(rng, g, cfg, name, nodes, prices):
         assets.append(gen_simple_contract(rng, g, sub, name + '_x', rng.choice(ext), prices))
     rng.shuffle(assets)
     a = {'kind': 'StructuredAsset', 'name': name, 'nodes': ext, 'assets': assets}
-    if rng.random() < cfg.get('p_struct_window', 0.3):
+    if rng.random() < cfg.get('p_struct_inside', 0.0) and len(grid_points(g)) >= 5:
+        # an own life time inside the horizon; every wrapped asset has an explicit window (partly wider than the structure's), so the joint
+        # life time is the intersection
+        pts = grid_points(g)
+        T = len(pts) - 1
+        step = freq_td(g['freq'])
+        i = rng.randint(0, T // 2)
+        j = rng.randint(i + 1, T)
+        try:
+            check_safe(pts[i], g.get('tz')); check_safe(pts[j], g.get('tz'))
+            check_safe(pts[0] - step, g.get('tz')); check_safe(pts[T] + step, g.get('tz'))
+            a['start'], a['end'] = fmt(pts[i]), fmt(pts[j])
+            for b in assets:
+                if not b.get('start'):
+                    b['start'] = fmt(rng.choice([pts[0] - step, pts[0], pts[rng.randint(0, T - 1)]]))
+                if not b.get('end'):
+                    b['end'] = fmt(rng.choice([pts[T] + step, pts[T]]))
+        except Unsafe:
+            a.pop('start', None); a.pop('end', None)
+    elif rng.random() < cfg.get('p_struct_window', 0.3):
         # an own life time that covers the whole horizon (so it must not change anything)
         pts = grid_points(g)
         step = freq_td(g['freq'])
